@@ -4,6 +4,12 @@ from harness.drivers import localops
 
 
 def run(ck):
+    # MC_LocalOps: bubble-sort evaluation = Fock-space vacuum expectation for every operator string
+    import os
+    cfg = os.path.join(ck.scratch, "MC_LocalOps.cfg")
+    open(cfg, "w").write("SPECIFICATION Spec\nCONSTANTS\n  NModes = %d\n  MaxLen = %d\nINVARIANT BubbleIsFock\nINVARIANT AdjointSame\n"
+                         "INVARIANT Anticommute\nCHECK_DEADLOCK FALSE\n" % ((3, 5) if ck.tier == "quick" else (4, 6)))
+    ck.model("MC_LocalOps.tla", cfg, timeout=3000)
     q = ck.tier == "quick"
     tids = gen.Tids()
     progs = localops.random_string_programs(ck.seed, 150 if q else 3000, tids)
